@@ -597,6 +597,28 @@ def run_conv(ctx, c, npr):
   yn = m(xj)
   close(ctx, 'conv.formula:nnx', yn, want, cdt, bound, detail=pm)
   agree(ctx, y, yn, cdt, 'conv')
+  if M is not None and c['xdt'] == c['pdt'] == 'float32' and c['dt'] is None:
+    # parameters and mask held as host (NumPy) arrays - restored weights, a mask built with NumPy: the layer reads them, the second
+    # call returns what the first returned and the caller's arrays are not written to
+    Kh, Mh = np.array(K, np.float32), np.array(M, np.float32)
+    K0 = Kh.copy()
+    modh = nn.Conv(c['features'], **dict(kw, kernel_size=c['kernel_size'], mask=Mh))
+    Ph = {'kernel': Kh, **({} if B is None else {'bias': np.array(B, np.float32)})}
+    y1 = modh.apply({'params': Ph}, xj)
+    y2 = modh.apply({'params': Ph}, xj)
+    ctx.op('linen.Conv(host-array params and mask)')
+    ctx.check(np.array_equal(Kh, K0), 'conv.mask_applied_in_place:linen', lambda: dict(changed=int((Kh != K0).sum())))
+    close(ctx, 'conv.mask_applied_in_place:linen', y2, want, cdt, bound, detail=pm)
+    mh = nnx.Conv(c['cin'], c['features'], c['kernel_size'], rngs=rngs0(), **dict(kw, mask=Mh))
+    Kn = np.array(K, np.float32)
+    mh.kernel.value = Kn
+    if B is not None:
+      mh.bias.value = np.array(B, np.float32)
+    mh(xj)
+    yn2 = mh(xj)
+    ctx.op('nnx.Conv(host-array params and mask)')
+    ctx.check(np.array_equal(Kn, K0), 'conv.mask_applied_in_place:nnx', lambda: dict(changed=int((Kn != K0).sum())))
+    close(ctx, 'conv.mask_applied_in_place:nnx', yn2, want, cdt, bound, detail=pm)
 
 
 def gen_conv_transpose(rng):
